@@ -1,8 +1,8 @@
 (** Property C01 — 1-D MOC operators compute exactly the set-theoretic result.
     Statements only; proofs are in Model/Ops1D.v and Base/RangeSet.v. *)
-From Coq Require Import List NArith.
+From Coq Require Import List NArith Bool.
 From MOC.Base Require Import RangeSet.
-From MOC.Model Require Import Qty Ops1D.
+From MOC.Model Require Import Qty Ops1D SweepMerge EagerOps.
 Import ListNotations.
 Open Scope N_scope.
 
@@ -57,7 +57,36 @@ Proof.
   split; vm_compute; reflexivity.
 Qed.
 
+(** the plain range-set primitives AS WRITTEN (src/ranges/mod.rs): the generic boolean merge (sweep
+    over the two flat arrays of bounds with the parity of the indices, used by `difference`) computes,
+    for ANY operator with op false false = false, the canonical list of op (l covers x) (r covers x);
+    the eager union (empty / disjoint-concatenation / binary-search prefix copy / two-way loop) and
+    the eager intersection (quick rejection / binary search on the starts / two-way loop) equal the
+    specification operators *)
+Theorem C01_generic_merge_sweep : forall op l r, op false false = false -> Canon l -> Canon r ->
+  Canon (merge op l r) /\ forall x, covb (merge op l r) x = op (covb l x) (covb r x).
+Proof. exact merge_spec. Qed.
+
+Theorem C01_difference_by_sweep : forall ub l r, Valid ub l -> Valid ub r ->
+  merge (fun a b => a && negb b) l r = minus ub l r.
+Proof. exact merge_minus. Qed.
+
+Theorem C01_sweep_other_operators : forall ub l r, Valid ub l -> Valid ub r ->
+  merge andb l r = inter ub l r /\ merge orb l r = union l r /\ merge xorb l r = xor ub l r.
+Proof. intros ub l r Vl Vr. split; [exact (merge_inter ub l r Vl Vr)|split; [exact (merge_union ub l r Vl Vr)|exact (merge_xor ub l r Vl Vr)]]. Qed.
+
+Theorem C01_eager_union_as_written : forall ub l r, Valid ub l -> Valid ub r -> union_e l r = union l r.
+Proof. exact union_e_eq_spec. Qed.
+
+Theorem C01_eager_intersection_as_written : forall ub l r, Valid ub l -> Valid ub r -> inter_e l r = inter ub l r.
+Proof. exact inter_e_eq_spec. Qed.
+
 Print Assumptions C01_binary_ops_set_semantics.
 Print Assumptions C01_complement_set_semantics.
 Print Assumptions C01_degrade_set_semantics.
 Print Assumptions C01_result_unique.
+Print Assumptions C01_generic_merge_sweep.
+Print Assumptions C01_difference_by_sweep.
+Print Assumptions C01_sweep_other_operators.
+Print Assumptions C01_eager_union_as_written.
+Print Assumptions C01_eager_intersection_as_written.
